@@ -107,9 +107,22 @@ def build():
         tol = ctx.real("tol", 1e-9, 1.0)
         st = {}
 
+        def roles(stn):
+            """which local is the remainder and which the step list, read off the loop itself (so that renaming locals is harmless):
+            remainder = the name in the loop test that the body assigns; step list = the name whose .append is called in the body"""
+            import ast as _ast
+            assigned = {t.id for n in _ast.walk(_ast.Module(body=stn.body, type_ignores=[])) if isinstance(n, (_ast.Assign, _ast.AugAssign))
+                        for t in (n.targets if isinstance(n, _ast.Assign) else [n.target]) if isinstance(t, _ast.Name)}
+            rest_name = next((n.id for n in _ast.walk(stn.test) if isinstance(n, _ast.Name) and n.id in assigned), "rest")
+            nds_name = next((n.func.value.id for n in _ast.walk(_ast.Module(body=stn.body, type_ignores=[])) if isinstance(n, _ast.Call)
+                             and isinstance(n.func, _ast.Attribute) and n.func.attr == "append" and isinstance(n.func.value, _ast.Name)), "nds")
+            return rest_name, nds_name
+
         def while0(it_, stn, sc):
-            nds0 = sc.lookup("nds")
-            rest0 = sc.lookup("rest")
+            REST, NDS = roles(stn)
+            st["names"] = (REST, NDS)
+            nds0 = sc.lookup(NDS)
+            rest0 = sc.lookup(REST)
             ctx.check("loop0/entry: list of steps starts empty", isinstance(nds0, list) and nds0 == [])
             A = lift_real(rest0)
             st["A"] = A
@@ -125,24 +138,24 @@ def build():
             S = z3.Real("S!k")
             it_.pc.append(z3.And(rest >= 0, S >= 0, rest + S == A))
             nds = AbsPairs(ctx, S, "inv1")
-            sc.vars["rest"] = SReal(rest)
-            sc.vars["nds"] = nds
+            sc.vars[REST] = SReal(rest)
+            sc.vars[NDS] = nds
             if it_.truth(it_.ev(stn.test, sc)):
                 ctx.cover("loop0/iteration")
                 it_.exec_block(stn.body, sc)
-                r2 = lift_real(sc.lookup("rest"))
+                r2 = lift_real(sc.lookup(REST))
                 ctx.check("loop0/inv-preserved: rest' >= 0", mk_bool(r2 >= 0))
                 ctx.check("loop0/inv-preserved: rest' + S' == a/pi", mk_bool(r2 + nds.sum == A))
                 ctx.check("loop0/inv-preserved: S' >= 0", mk_bool(nds.sum >= 0))
                 ctx.check("loop0/variant: rest' * 127 <= rest", mk_bool(r2 * 127 <= rest))
-                ctx.check("loop0/same-list-object", sc.lookup("nds") is nds)
+                ctx.check("loop0/same-list-object", sc.lookup(NDS) is nds)
                 raise I.PathAbort()
             ctx.cover("loop0/exit")
             st["exit_rest"] = rest
             st["nds"] = nds
 
         def for1(it_, stn, sc):
-            nds = sc.lookup("nds")
+            nds = it_.ev(stn.iter.args[0], sc) if (hasattr(stn.iter, "args") and stn.iter.args) else sc.lookup(st.get("names", ("rest", "nds"))[1])
             ctx.check("loop1/iterates-the-step-list", nds is st.get("nds"))
             n = z3.Int("n!g")
             d = z3.Int("d!g")
